@@ -71,7 +71,7 @@ def handleExec (op : String) (j : Json) : Option Json :=
           match accept P fl s e with
           | some s' =>
             let bad' := if bad.isNone && !(scanGuard n sc e) then some i else bad
-            go s' (scanStep sdeps sc e) bad' (i + 1) rest
+            go s' (scanStep sdeps (fun w => (fl w).keepGoing) sc e) bad' (i + 1) rest
           | none =>
             let w := (evWorkerD e)
             .error (i, s!"rejected in worker state {wkName (s.wk w)}")
